@@ -9,7 +9,7 @@ BASE = dict(
     BadEvents="FALSE", FoUuid="<- Fo10", Savers='{"p"}', MaxSaves="2", MaxCrash="1", MaxAcks="2", MaxGen="2",
     MaxNotify="0", MaxEnds="0", MaxFail="0", AutoReset='"earliest"', Finite="FALSE", AutoCkpt="FALSE",
     Infos="<- NoInfos", Info0="<- Info11", EndCauses="{}", Hold="FALSE", AllowClose="FALSE", Rollbacks="FALSE",
-    FailSaves="TRUE", Focus="TRUE", Record="FALSE", ReadOnly="FALSE", AckSplit="FALSE", RM="FALSE", Slots="1", RmUuids="{1, 2}", RmMonotone="FALSE", Scrapes="FALSE", HookScrapes="FALSE", Marking="FALSE", WindAt="0", Gaps="{}", Bugs="{}")
+    FailSaves="TRUE", Focus="TRUE", Record="FALSE", ReadOnly="FALSE", AckSplit="FALSE", HoldCb="FALSE", RM="FALSE", Slots="1", RmUuids="{1, 2}", RmMonotone="FALSE", Scrapes="FALSE", HookScrapes="FALSE", Marking="FALSE", WindAt="0", Gaps="{}", Bugs="{}")
 DATA = dict(BASE)
 GEN = dict(BASE, NVB="1", InitLog="<- EmptyLog", Kinds='{"mut", "del", "exp", "sys", "adv"}', Keys='{"user", "conn", "txn"}',
            OldEvents="TRUE", BadEvents="TRUE", MaxSaves="1", Rollbacks="TRUE", FailSaves="FALSE")
@@ -57,6 +57,11 @@ CFGS = {
     "SimLifeF": simc(LIFE, 40, NVB="1", MaxNotify="0", MaxEnds="0", MaxSaves="2", MaxAcks="2", MaxSeq="2", FailSaves="TRUE"),
     "WitLifeF": wit(LIFE, NVB="1", MaxNotify="0", MaxEnds="0", MaxSaves="1", MaxAcks="1", MaxSeq="2", FailSaves="TRUE"),
     "WitReplayLifeF": rep(LIFE, NVB="1", MaxSeq="3", MaxSaves="5", MaxAcks="5", MaxNotify="5", MaxEnds="6", Hold="TRUE", FailSaves="TRUE"),
+    # the handler of AfterRebalanceEnd takes time: a notification meanwhile starts the next rebalance, which blocks on the rebalance lock
+    "MCLifeHQ": mc(LIFE, HoldCb="TRUE", MaxNotify="2", MaxEnds="0", MaxSaves="0", MaxAcks="0", AllowClose="FALSE", AutoCkpt="FALSE"),
+    "SimLifeH": simc(LIFE, 50, HoldCb="TRUE", MaxSeq="2", MaxSaves="1", MaxAcks="1", MaxNotify="3", MaxEnds="0", AllowClose="FALSE", AutoCkpt="FALSE"),
+    "WitLifeH": wit(LIFE, HoldCb="TRUE", MaxNotify="2", MaxEnds="0", MaxSaves="0", MaxAcks="0", Kinds="{}", AllowClose="FALSE", AutoCkpt="FALSE"),
+    "WitReplayLifeH": rep(LIFE, HoldCb="TRUE", MaxSeq="3", MaxSaves="5", MaxAcks="5", MaxNotify="5", MaxEnds="6", Hold="TRUE"),
     "MCLifeF5": mc(LIFE, Bugs='{"F5"}', MaxEnds="0", MaxSaves="0", MaxAcks="0", AllowClose="FALSE"),   # expected to violate C11
     "MCLifeF2": mc(LIFE, Bugs='{"F2"}', MaxNotify="1", MaxEnds="0", MaxSaves="0", MaxAcks="0"),        # expected to violate C13
     "MCLifeGaps": mc(LIFE, Gaps=GAPS, MaxNotify="1", MaxSaves="0", MaxAcks="0"),                       # expected to violate (F6, F8)
